@@ -483,8 +483,17 @@ def clane_runs(ctx, plan=None):
     if stats.get("rounds", 0) == 0 or not trc:
         mism.append({"what": "the trace check recorded no round / no dq_state transition at all: nothing ties CLane to the code in this run",
                      "detail": {"rounds": stats.get("rounds", 0), "transitions": len(trc)}})
+    # at most 3 mismatches of one kind per run go into the report (the counts stay in the distribution)
+    seen, kept = {}, []
     for x in mism:
         x["part"] = "clane"
+        d = x.get("detail")
+        k = (x["what"], str(d.get("run")) if isinstance(d, dict) else "")
+        seen[k] = seen.get(k, 0) + 1
+        if seen[k] <= 3:
+            kept.append(x)
+    stats["mismatches_by_kind"] = {"%s | %s" % (k[0][:80], k[1]): n for k, n in seen.items()}
+    mism = kept
     stats["judged"] = judged
     return fails, mism, trc, wordc, ownc, stats
 
@@ -707,6 +716,10 @@ def replay(ctx, obj):
                     else:
                         print("  does not reproduce")
             elif part == "lanes" or (isinstance(d, dict) and part is None and str(d.get("key", "")).startswith("C04:")):
+                lk = ("lanes", d.get("scenario"), d.get("seed"), d.get("permille"), d.get("scale", 1))
+                if lk in done_runs:
+                    continue
+                done_runs.add(lk)
                 r = _replay_lanes(ctx, d)
                 if r is None:
                     skipped.append(what)
